@@ -312,12 +312,20 @@ def F_label(ctx, lib):
                 ok = len(pushes) == 1 and len(inserts) == 1
                 why = p.describe()[:300]
                 if ok:
+                    def owned(x):
+                        """(base, n) after stripping owning conversions / copies: String::from, to_owned, to_string, into, clone"""
+                        x, n_ = deep_strip(x), 0
+                        while x[0] == "app" and flow.last(x[1]) in ("from", "to_string", "to_owned", "into", "clone") and x[2]:
+                            x, n_ = deep_strip(x[2][0]), n_ + 1
+                        return x, n_
                     pv = deep_strip(pushes[0]["args"][1])
-                    ok = pv[0] == "app" and flow.last(pv[1]) in ("from", "to_string", "to_owned", "into") and deep_strip(pv[2][0]) == label
+                    pb, pn = owned(pv)
+                    ok = pn >= 1 and pb == label
                     lens = [e for e in effects_named(p, "Vec::len") if e["serial"] < pushes[0]["serial"]]
                     k, v = deep_strip(inserts[0]["args"][1]), deep_strip(inserts[0]["args"][2])
                     pos_ok = bool(lens) and v == deep_strip(lens[-1]["result"])
-                    key_ok = (k[0] == "index" and deep_strip(k[2]) == v) or (k[0] == "app" and flow.last(k[1]) in ("from", "to_string") and deep_strip(k[2][0]) == label)
+                    kb, kn = owned(k)
+                    key_ok = (kb[0] == "index" and deep_strip(kb[2]) == v) or (kn >= 1 and kb == label)
                     ok = ok and pos_ok and key_ok
                     why = "push %s; insert(%s, %s)" % (symx.show(pv)[:80], symx.show(k)[:80], symx.show(v)[:60])
                 ctx.ob(rule, "parse_statement.new-label", ok, where=cb.where(), expected="namelist.push(String::from(label)); dict.insert(that string, position = len before push)", found=why)
@@ -482,6 +490,8 @@ def P_panic(ctx, lib):
             for bb, t in bd.terminators():
                 if symx.in_log(t.get("exp")):
                     continue
+                if any(str(x_).startswith("m:debug_assert") for x_ in (t.get("exp") or [])):
+                    continue    # debug_assert!/debug_assert_eq!: compiled out of the shipped (release) binary
                 kind = None
                 if t["k"] == "call":
                     p = flow.sg(ir.callee_path(ir.callee_of(t)) or "")
